@@ -14,10 +14,15 @@ EXTENDS Naturals, Sequences, FiniteSets, TLC
 CONSTANTS ThreshC, ThreshS, \* packets after which the client / server starts a re-exchange (0 = never)
           MaxApp,       \* application packets each side wants to send
           MaxKex,       \* bound on key exchanges (for finiteness)
-          FlushBeforeNewkeys \* TRUE: sensitivity variant (deferred packets flushed before NEWKEYS)
+          FlushBeforeNewkeys, \* TRUE: sensitivity variant (deferred packets flushed before NEWKEYS)
+          RepeatC, RepeatS, \* does the client / server repeat the kex-strict marker in the KEXINITs of
+                            \* re-exchanges?  (asyncssh and OpenSSH do; the extension says the marker
+                            \* "MUST be ignored if present in subsequent KEXINIT", so a peer may omit it)
+          RelatchStrict     \* TRUE: sensitivity variant (strict mode re-decided at every KEXINIT)
 
 Sides == {"c", "s"}
 Other(x) == IF x = "c" THEN "s" ELSE "c"
+Repeats(x) == IF x = "c" THEN RepeatC ELSE RepeatS
 
 VARIABLES s, lbl
 vars == <<s, lbl>>
@@ -34,6 +39,11 @@ InitState(thc, ths, asz) ==
              ks |-> [x \in Sides |-> FALSE],     \* _kexinit_sent
              kexing |-> [x \in Sides |-> FALSE], \* self._kex is set
              se |-> [x \in Sides |-> 1],         \* epoch of the keys used for sending
+             \* strict key exchange was negotiated by the FIRST exchange (before this model
+             \* starts): sequence numbers are reset to 0 with every NEWKEYS, in each direction
+             strict |-> [x \in Sides |-> TRUE],  \* _strict_kex
+             sseq |-> [x \in Sides |-> 3],       \* _send_seq (some packets into the first epoch)
+             rseq |-> [x \in Sides |-> 3],       \* _recv_seq
              re |-> [x \in Sides |-> 1],         \* ... for receiving
              staged |-> [x \in Sides |-> FALSE], \* next receive keys staged
              cnt |-> [x \in Sides |-> 0],        \* packets sent since the last KEXINIT (rekey_bytes_sent)
@@ -49,12 +59,15 @@ Init ==
     /\ s = InitState(ThreshC, ThreshS, 1)
     /\ lbl = <<"init">>
 
-P(t, id, ep) == [t |-> t, id |-> id, ep |-> ep]
+P(t, id, ep, seq, mk) == [t |-> t, id |-> id, ep |-> ep, seq |-> seq, mk |-> mk]
 Step(new, l) == s' = new /\ lbl' = l
 
 \* emit a sequence of kinds from x under the current send epoch
 Emit(st, x, kinds) ==
-    [st EXCEPT !.net[x] = @ \o [i \in 1..Len(kinds) |-> P(kinds[i][1], kinds[i][2], st.se[x])],
+    [st EXCEPT !.net[x] = @ \o [i \in 1..Len(kinds) |->
+                                  P(kinds[i][1], kinds[i][2], st.se[x], st.sseq[x] + i - 1,
+                                    kinds[i][1] = "KEXINIT" /\ Repeats(x))],
+               !.sseq[x] = @ + Len(kinds),
                !.out[x] = @ \o [i \in 1..Len(kinds) |-> kinds[i][1]]]
 
 \* _send_kexinit
@@ -80,6 +93,7 @@ SendNewkeys(st, x) ==
         s1 == IF FlushBeforeNewkeys THEN Emit(st, x, flushKinds) ELSE st
         s2 == Emit(s1, x, <<<<"NEWKEYS", 0>>>>)
         s3 == [s2 EXCEPT !.se[x] = @ + 1, !.staged[x] = TRUE, !.kc[x] = TRUE,
+                         !.sseq[x] = IF st.strict[x] THEN 0 ELSE @,
                          !.kexing[x] = FALSE, !.deferred[x] = <<>>]
     IN IF FlushBeforeNewkeys THEN s3 ELSE Flush(s3, x, q)
 
@@ -94,16 +108,19 @@ Recv(x) ==
     /\ ~s.err /\ s.net[x] # <<>>
     /\ LET y == Other(x)
            m == Head(s.net[x])
-           s0 == [s EXCEPT !.net[x] = Tail(@)]
+           s0 == [s EXCEPT !.net[x] = Tail(@), !.rseq[y] = @ + 1]
            bad == [s0 EXCEPT !.err = TRUE]
            new ==
-             IF m.ep # s.re[y] THEN bad                  \* wrong keys: MAC failure
+             IF m.ep # s.re[y] \/ m.seq # s.rseq[y] THEN bad   \* wrong keys / sequence number: MAC failure
              ELSE IF m.t = "APP" THEN [s0 EXCEPT !.delivered[y] = Append(@, m.id)]
              ELSE IF m.t = "KEXINIT" THEN
                   IF s.kexing[y] THEN bad                \* "Key exchange already in progress"
                   ELSE LET s1 == IF s.ks[y] THEN [s0 EXCEPT !.ks[y] = FALSE]
                                  ELSE SendKexinit(s0, y)
-                           s2 == [s1 EXCEPT !.kexing[y] = TRUE]
+                           \* strict mode was fixed by the first exchange: the marker in
+                           \* a later KEXINIT, present or not, changes nothing
+                           s2 == [s1 EXCEPT !.kexing[y] = TRUE,
+                                            !.strict[y] = IF RelatchStrict THEN m.mk ELSE @]
                        IN IF y = "c" THEN Emit(s2, y, <<<<"KEXDH_INIT", 0>>>>) ELSE s2
              ELSE IF m.t = "KEXDH_INIT" THEN
                   IF y = "s" /\ s.kexing[y]
@@ -112,7 +129,8 @@ Recv(x) ==
              ELSE IF m.t = "KEXDH_REPLY" THEN
                   IF y = "c" /\ s.kexing[y] THEN SendNewkeys(s0, y) ELSE bad
              ELSE IF m.t = "NEWKEYS" THEN
-                  IF s.staged[y] THEN [s0 EXCEPT !.re[y] = @ + 1, !.staged[y] = FALSE]
+                  IF s.staged[y] THEN [s0 EXCEPT !.re[y] = @ + 1, !.staged[y] = FALSE,
+                                                 !.rseq[y] = IF s.strict[y] THEN 0 ELSE @]
                   ELSE bad                               \* "New keys not negotiated"
              ELSE bad
        IN Step(new, <<"recv", x, m.t, m.id>>)
